@@ -146,6 +146,7 @@ func refEncodeStruct(st *RStruct, v *RVal, out []byte) []byte {
 		return append(out, 0) // nil non-optional struct => empty struct
 	}
 	nf := len(st.Fields)
+	var dup []byte
 	for j := 0; j < nf; j++ {
 		i := fieldOrder(j, nf)
 		f := &st.Fields[i]
@@ -153,10 +154,17 @@ func refEncodeStruct(st *RStruct, v *RVal, out []byte) []byte {
 		if refOmitted(f, fv) {
 			continue
 		}
+		start := len(out)
 		out = append(out, wireType(f.T))
 		out = put16(out, f.ID)
 		out = refEncodeValue(f.T, fv, out)
+		if encDup != 0 && dup == nil && f.T.Kind <= KBinary {
+			dup = append([]byte{}, out[start:]...)
+		}
 	}
+	// encDup: a foreign writer may send a field id twice; the first scalar/string field written is repeated (same
+	// value) after the last field of every struct
+	out = append(out, dup...)
 	if st.HasUnknown && len(v.Unknown) > 0 {
 		out = append(out, v.Unknown...)
 	}
@@ -430,6 +438,9 @@ func refEqualStruct(st *RStruct, a, b *RVal) bool {
 // encOrder selects the order in which the reference encoder writes the fields of every struct
 // (a foreign writer may use any order): 0 ascending id, 1 descending, k>=2 rotated by k-1.
 var encOrder = 0
+
+// encDup != 0: every struct repeats its first written scalar/string field before STOP.
+var encDup = 0
 
 func fieldOrder(j, n int) int {
 	switch {
